@@ -124,6 +124,16 @@ func c16Entries() []c16Entry {
 		{name: "*actor-id-bad-port", ident: "https://example.com:port/u", want: "iri:https://example.com:port/u", mk: func() ap.Item { return &ap.Actor{ID: "https://example.com:port/u", Type: ap.PersonType} }},
 		{name: "*obj-id-blank-host", ident: "https://exa mple.com/x", want: "iri:https://exa mple.com/x", mk: func() ap.Item { return &ap.Object{ID: "https://exa mple.com/x", Type: ap.NoteType} }},
 	}
+	es = append(es,
+		// an id-less object that itself embeds items with ids: it stays as it is, INCLUDING what it holds (flattening does not descend)
+		c16Entry{name: "*obj-noid-rich", ident: "", mk: func() ap.Item {
+			return &ap.Object{Type: ap.NoteType, Name: name("anonymous, with embedded items"), AttributedTo: &ap.Actor{ID: c16IDa, Type: ap.PersonType},
+				To: ap.ItemCollection{&ap.Object{ID: c16IDb, Type: ap.NoteType}}, Replies: &ap.Collection{ID: "https://example.com/replies", Type: ap.CollectionType}}
+		}},
+		// an id-less link whose TARGET is the id of another entry: a link is not identified by where it points
+		c16Entry{name: "*link-noid-href-a", ident: "", mk: func() ap.Item { return &ap.Link{Type: ap.MentionType, Href: c16IDa} }},
+		c16Entry{name: "*link-noid-href-a-twin", ident: "", mk: func() ap.Item { return &ap.Link{Type: ap.MentionType, Href: c16IDa, Name: name("@a")} }},
+	)
 	for i := range es {
 		if es[i].want == "" {
 			es[i].want = c16Desc(es[i].mk())
